@@ -8,6 +8,9 @@ HOOK_COMMITS = subprocess.run(["git", "-C", "/repo", "log", "--format=%H", "--gr
 
 # id -> (technique, level text, level note, design ref)
 CHECKS = {
+ "C04": ("exhaustive enumeration of all canonical combinator DAGs up to a node bound x every topological construction order, each run through the real ConstructNode API in a fresh context and judged by a textbook unifier",
+         "All DAGs with <=4 (thorough 5; 6 over a reduced alphabet) nodes over an 18-symbol alphabet (well-typed or not, every sharing pattern), as program and as expression, in every linear extension of the dependency order; every Core and Elements jet as a typed leaf in all DAGs of <=3 nodes; pair-doubling macro-cases (up to 100 doublings) for termination, memory and displayability of errors. Verdict, every node's arrow and order-independence are compared on every case.",
+         "Trusts the 60-line Robinson unifier and the typing rules as transcribed; DAGs above the node bound are only covered by the doubling macro-cases.", "5/C04"),
  "C10": ("exhaustive enumeration of (type, value, production history) triples and prune targets, judged by reference type/value trees",
          "Every type with <=3/4 constructors plus word/option/buffer types, every value (corner values above 4096), 17 production histories including sub-value extraction at every bit offset from dirty buffers, every prune target with <=2/3 constructors and every two-step chain. Complete within those bounds.",
          "Trusts the reference enum trees (width, padding, compact/padded bits by the Tech Report definitions). Wide types only on corner values.", "5/C10"),
